@@ -231,7 +231,7 @@ def run_batch(batch, codecs, scripts, smalls, nrandom, rng, out):
                     memmax[key] = r
             keep += [r for r in evmax.values() if r not in keep]
             keep += [r for r in memmax.values() if r not in keep]
-            out.write(json.dumps({'cid': '%s-%s' % (c['cid'], codec), 'codec': codec, 'depth': depth,
+            out.write(json.dumps({'cid': '%s-%s' % (c['cid'], codec), 'codec': codec, 'depth': depth, 'env': env, 'top': c['top'],
                                   'asn1': render.render_module('M', env), 'inputs': len(obs),
                                   'outcomes': {k: sum(1 for r in obs if r['st'] == k) for k in ('ok', 'exc', 'budget', 'timeout', 'bad')},
                                   'sentinel': sentinel_bad, 'obs': keep[:400]}) + '\n')
